@@ -48,6 +48,9 @@ def assigned(body):
                 for n in ast.walk(t):
                     if isinstance(n, ast.Name): out.add(n.id)
         elif isinstance(s, ast.AugAssign) and isinstance(s.target, ast.Name): out.add(s.target.id)
+        elif isinstance(s, ast.Delete):
+            for t in s.targets:
+                if isinstance(t, ast.Subscript) and isinstance(t.value, ast.Name): out.add(t.value.id)
         elif isinstance(s, ast.For):
             for n in ast.walk(s.target):
                 if isinstance(n, ast.Name): out.add(n.id)
@@ -71,7 +74,7 @@ class LoopTranslator(pyfun.Translator):
         return super().find_def(name, cls)
 
     def translate(self, name, cls=None):
-        self.pending, self.uses_loops, self.nloop = [], False, 0
+        self.pending, self.uses_loops, self.nloop, self.fn_tables = [], False, 0, {}
         info = super().translate(name, cls)
         if self.uses_loops:
             if info.recursive: raise Refusal('%s: recursive function with loops' % name)
@@ -83,14 +86,83 @@ class LoopTranslator(pyfun.Translator):
         return info
 
     def call_known(self, info, node, extra_first=()):
-        if info.pyname in self.loop_fns: self.refuse(node, 'call of a function that contains loops')
-        return super().call_known(info, node, extra_first)
+        """as pyfun's, plus: a callee that contains loops takes the caller's fuel (the caller then takes fuel too)"""
+        if info.pyname not in self.loop_fns: return super().call_known(info, node, extra_first)
+        given = {}
+        pos = list(node.args)
+        if len(pos) > len(info.params): self.refuse(node, 'too many arguments')
+        for p, a in zip(info.params, pos): given[p] = a
+        for kw in node.keywords:
+            if kw.arg is None or kw.arg not in info.params or kw.arg in given: self.refuse(node, 'keyword argument')
+            given[kw.arg] = kw.value
+        argnodes = []
+        for p in info.params:
+            if p in given: argnodes.append(given[p])
+            elif p in info.defaults: argnodes.append(info.defaults[p])
+            else: self.refuse(node, 'missing argument %s' % p)
+        self.uses_loops = True
+        selfargs = ['self_' + a for a in info.self_attrs]
+        return self.bindall(argnodes, lambda a: '%s fuel %s' % (info.coqname, ' '.join(selfargs + a)))
+
+    STR_FN = {'upper': 'm_upper', 'lower': 'm_lower', 'strip': 'm_strip', 'lstrip': 'm_lstrip', 'rstrip': 'm_rstrip'}
+
+    def fn_table(self, v):
+        """[str.upper, str.lower][E]: a table of unary string methods indexed by an expression"""
+        if isinstance(v, ast.Subscript) and isinstance(v.value, ast.List) and v.value.elts and not isinstance(v.slice, ast.Slice) and \
+           all(isinstance(e, ast.Attribute) and isinstance(e.value, ast.Name) and e.value.id == 'str' and e.attr in self.STR_FN for e in v.value.elts):
+            return [self.STR_FN[e.attr] for e in v.value.elts], v.slice
+        return None
 
     def block(self, stmts):
         if stmts and isinstance(stmts[0], _Emit): return stmts[0].text
         if stmts and isinstance(stmts[0], ast.While): return self.while_(stmts[0], stmts[1:])
         if stmts and isinstance(stmts[0], ast.For): return self.for_(stmts[0], stmts[1:])
+        s, rest = (stmts[0], stmts[1:]) if stmts else (None, [])
+        if isinstance(s, ast.Assign) and len(s.targets) == 1:
+            t = s.targets[0]
+            # a, b = E
+            if isinstance(t, ast.Tuple) and t.elts and all(isinstance(e, ast.Name) for e in t.elts):
+                tmp = self.fresh('u')
+                e = self.expr(s.value)
+                n = len(t.elts)
+                out = '(do %s <- %s;\n' % (tmp, e)
+                for i, el in enumerate(t.elts):
+                    out += '(do v_%s <- py_unpack %s %d %d;\n' % (el.id, tmp, n, i)
+                    self.locals.add(el.id)
+                return out + self.block(rest) + ')' * (n + 1)
+            # X[k] = E   (X a local variable holding a dictionary: the model re-binds X)
+            if isinstance(t, ast.Subscript) and isinstance(t.value, ast.Name) and t.value.id in self.locals and not isinstance(t.slice, ast.Slice):
+                x = t.value.id
+                e = self.bindall([t.slice, s.value], lambda a: 'py_setitem v_%s %s %s' % (x, a[0], a[1]))
+                return '(do v_%s <- %s;\n%s)' % (x, e, self.block(rest))
+            # f = [str.upper, str.lower][E]
+            if isinstance(t, ast.Name) and self.fn_table(s.value):
+                fns, idx = self.fn_table(s.value)
+                self.fn_tables[t.id] = fns
+                e = self.bindall([idx], lambda a: 'py_getitem (VList [%s]) %s' % ('; '.join('VInt %d%%Z' % i for i in range(len(fns))), a[0]))
+                self.locals.add(t.id)
+                return '(do v_%s <- %s;\n%s)' % (t.id, e, self.block(rest))
+        if isinstance(s, ast.Delete):
+            if len(s.targets) != 1 or not (isinstance(s.targets[0], ast.Subscript) and isinstance(s.targets[0].value, ast.Name)
+                                           and s.targets[0].value.id in self.locals): self.refuse(s, 'del form')
+            x = s.targets[0].value.id
+            e = self.bindall([s.targets[0].slice], lambda a: 'py_delitem v_%s %s' % (x, a[0]))
+            return '(do v_%s <- %s;\n%s)' % (x, e, self.block(rest))
         return super().block(stmts)
+
+    def expr(self, node):
+        if isinstance(node, ast.Dict) and not node.keys: return 'Ok (VDict [])'
+        return super().expr(node)
+
+    def call(self, node):
+        f = node.func
+        if isinstance(f, ast.Name) and f.id in self.fn_tables and f.id in self.locals:
+            if node.keywords or len(node.args) != 1: self.refuse(node, 'call through a method table')
+            fns = self.fn_tables[f.id]
+            return self.bindall([node.args[0]], lambda a: 'call_tbl [%s] v_%s %s' % ('; '.join(fns), f.id, a[0]))
+        if isinstance(f, ast.Attribute) and f.attr == 'items' and not node.args and not node.keywords:
+            return self.bindall([f.value], lambda a: 'py_items %s' % a[0])
+        return super().call(node)
 
     # ------------------------------------------------------------------
     def loop_common(self, s, kind):
@@ -111,6 +183,9 @@ class LoopTranslator(pyfun.Translator):
         for t in s.body:
             if isinstance(t, ast.Assign) and len(t.targets) == 1 and isinstance(t.targets[0], ast.Name) \
                     and t.targets[0].id == v and v not in reads(t.value):
+                return
+            if isinstance(t, ast.Assign) and len(t.targets) == 1 and isinstance(t.targets[0], ast.Tuple) \
+                    and all(isinstance(e, ast.Name) for e in t.targets[0].elts) and v in [e.id for e in t.targets[0].elts] and v not in reads(t.value):
                 return
             if v in reads(t) or v in assigned([t]): break
         self.refuse(s, 'variable %s may be read before assignment in the loop' % v)
@@ -146,6 +221,13 @@ class LoopTranslator(pyfun.Translator):
 
     def for_(self, s, rest):
         fname = self.loop_common(s, 'for')
+        unpack = None
+        if isinstance(s.target, ast.Tuple) and s.target.elts and all(isinstance(e, ast.Name) for e in s.target.elts):
+            # for a, b in E:  ==  for item_ in E: a, b = item_
+            unpack = s.target
+            item = 'item%d_' % self.nloop
+            s = ast.For(target=ast.Name(id=item, ctx=ast.Store()), iter=s.iter, orelse=[], lineno=getattr(s, 'lineno', 0),
+                        body=[ast.Assign(targets=[unpack], value=ast.Name(id=item, ctx=ast.Load()), lineno=getattr(s, 'lineno', 0))] + list(s.body))
         if not isinstance(s.target, ast.Name): self.refuse(s, 'for target')
         x = s.target.id
         if x in self.locals: self.refuse(s, 'for target shadows a local')
@@ -318,3 +400,205 @@ def tables(tr):
     text += 'Definition gen_layername_length_tbl : list Z := [%s]%%Z.\n' % '; '.join(str(v) for v in got['layername_length'])
     text += 'Definition gen_atmosphere_column_name_tbl : list string := [%s].\n' % '; '.join(pyfun.coq_str(v) for v in got['atmosphere_column_name'])
     return text, got
+
+
+# ----------------------------------------------------------------------
+def _params_of(fn, used, extra_first=()):
+    """keep `self` + the parameters in `used` (original order); defaults survive only as a suffix"""
+    nd = len(fn.args.defaults)
+    defaults = dict(zip([a.arg for a in fn.args.args[len(fn.args.args) - nd:]], fn.args.defaults))
+    keep = [a for a in fn.args.args if a.arg == 'self' or a.arg in used]
+    extra = [ast.arg(arg=x) for x in extra_first]
+    suffix = []
+    for a in reversed(keep):
+        if a.arg in defaults: suffix.insert(0, defaults[a.arg])
+        else: break
+    fn.args.args = [a for a in keep if a.arg == 'self'] + extra + [a for a in keep if a.arg != 'self']
+    fn.args.defaults = suffix
+    return [a.arg for a in fn.args.args if a.arg != 'self']
+
+
+def returning_argument(tr, name, arg):
+    """a procedure that works by mutating its argument `arg` (and returns nothing): the functional model returns
+    the final value of that argument"""
+    node = pyfun.Translator.find_def(tr, name)
+    fn = copy.deepcopy(node)
+    for s in _stmts(fn.body):
+        if isinstance(s, ast.Return): raise Refusal('%s:%s: %s has a return statement' % (tr.path, s.lineno, name))
+    if arg not in [a.arg for a in fn.args.args]: raise Refusal('%s: %s has no parameter %s' % (tr.path, name, arg))
+    fn.body = list(fn.body) + [ast.Return(value=ast.Name(id=arg, ctx=ast.Load()))]
+    ast.fix_missing_locations(fn)
+    return fn
+
+
+def slice_chars_of(tr, name='rectangular', cls='mulgrid', var='chars'):
+    """backward slice of a constructor on the character set it names things with: the statements that assign `var`
+    (and what they need), in order, then `return var`.  Refused if `var` is read by any other statement before it
+    has its final value (a name generated from a not yet de-duplicated / case-converted alphabet)."""
+    node = pyfun.Translator.find_def(tr, name, cls)
+    fn = copy.deepcopy(node)
+    body = fn.body
+    if body and isinstance(body[0], ast.Expr) and isinstance(body[0].value, ast.Constant): body = body[1:]
+    local = assigned(body)
+    S = {var}
+
+    def defines(s, S):
+        if isinstance(s, ast.Assign): return any(isinstance(n, ast.Name) and n.id in S for t in s.targets for n in ast.walk(t))
+        if isinstance(s, ast.AugAssign): return isinstance(s.target, ast.Name) and s.target.id in S
+        if isinstance(s, ast.If): return any(defines(t, S) for t in s.body + s.orelse)
+        if isinstance(s, (ast.For, ast.While, ast.Try, ast.With)): return any(defines(t, S) for t in _stmts([s]) if t is not s)
+        return False
+
+    def filt(stmts, S):
+        out = []
+        for s in stmts:
+            if not defines(s, S): continue
+            if isinstance(s, ast.If):
+                t = copy.copy(s); t.body = filt(s.body, S) or [ast.Pass()]; t.orelse = filt(s.orelse, S)
+                out.append(t)
+            elif isinstance(s, (ast.Assign, ast.AugAssign)): out.append(s)
+            else: raise Refusal('%s:%s: %s slice of %s: %s assigned inside a %s' % (tr.path, s.lineno, var, name, var, type(s).__name__))
+        return out
+    while True:
+        kept = filt(body, S)
+        need = set()
+        for s in kept:
+            for t in _stmts([s]):
+                if isinstance(t, ast.If): need |= reads(t.test)
+                elif isinstance(t, (ast.Assign, ast.AugAssign)): need |= reads(t.value)
+        new = (need & local) - S
+        if not new: break
+        S |= new
+    if not kept: raise Refusal('%s: %s never assigns %s' % (tr.path, name, var))
+    # no other statement may read var before the last kept top-level statement
+    idx = [i for i, s in enumerate(body) if defines(s, S)]
+    last = idx[-1]
+    def dropped_reads(stmts, S):
+        for s in stmts:
+            if defines(s, S):
+                if isinstance(s, ast.If):
+                    for r in dropped_reads(s.body + s.orelse, S): yield r
+                continue
+            if var in reads(s): yield s
+    for s in dropped_reads(body[:last + 1], S):
+        raise Refusal('%s:%s: %s of %s is used before it has its final value' % (tr.path, s.lineno, var, name))
+    fn.body = kept + [ast.Return(value=ast.Name(id=var, ctx=ast.Load()))]
+    used = set()
+    for s in fn.body: used |= reads(s)
+    params = _params_of(fn, used - (local - {a.arg for a in fn.args.args}) | ({a.arg for a in fn.args.args} & used))
+    ast.fix_missing_locations(fn)
+    return fn, params
+
+
+class _Rewrite(ast.NodeTransformer):
+    """self.layerlist[0].name -> names_[0];  self.layer -> names_"""
+    def visit_Attribute(self, node):
+        self.generic_visit(node)
+        v = node.value
+        if node.attr == 'name' and isinstance(v, ast.Subscript) and isinstance(v.value, ast.Attribute) and isinstance(v.value.value, ast.Name) \
+                and v.value.value.id == 'self' and v.value.attr == 'layerlist' and isinstance(v.slice, ast.Constant) and v.slice.value == 0:
+            return ast.Subscript(value=ast.Name(id='names_', ctx=ast.Load()), slice=ast.Constant(value=0), ctx=ast.Load())
+        if node.attr == 'layer' and isinstance(v, ast.Name) and v.id == 'self':
+            return ast.Name(id='names_', ctx=ast.Load())
+        return node
+
+
+HARMLESS_CALLS = ('set_column_num_layers', 'setup_block_name_index', 'setup_block_connection_name_index', 'identify_layer_tops')
+
+
+def slice_refine_layers(tr, add_layers_params):
+    """name-deciding slice of mulgrid.refine_layers over the list `names_` of the geometry's layer names:
+    self.layerlist[0].name -> names_[0], `x in self.layer` -> `x in names_`, self.clear_layers() -> names_ = [],
+    self.add_layers(..) -> names_ = <translated add_layers slice>(..), self.rename_layer(a, b) -> names_ with a replaced by b.
+    The thickness list only matters through its length: it becomes a parameter and its computation is dropped."""
+    node = pyfun.Translator.find_def(tr, 'refine_layers', 'mulgrid')
+    real_add = pyfun.Translator.find_def(tr, 'add_layers', 'mulgrid')
+    add_args = [a.arg for a in real_add.args.args if a.arg != 'self']
+    fn = copy.deepcopy(node)
+    body = fn.body
+    if body and isinstance(body[0], ast.Expr) and isinstance(body[0].value, ast.Constant): body = body[1:]
+    def bad(s, msg): raise Refusal('%s:%s: refine_layers slice: %s' % (tr.path, getattr(s, 'lineno', '?'), msg))
+    # the add_layers call and the variables that reach a name
+    calls = [s for s in _stmts(body) if _is_self_call(s, 'add_layers')]
+    if len(calls) != 1: raise Refusal('%s: refine_layers slice: expected exactly one self.add_layers(...) call' % tr.path)
+    c = calls[0].value
+    bound = dict(zip(add_args, c.args))
+    for kw in c.keywords:
+        if kw.arg is None or kw.arg in bound or kw.arg not in add_args: bad(calls[0], 'add_layers keyword')
+        bound[kw.arg] = kw.value
+    th = bound.get('thicknesses')
+    if not isinstance(th, ast.Name): bad(calls[0], 'thicknesses argument is not a variable')
+    opaque = th.id
+    kw = []
+    for p in add_layers_params:
+        if p not in bound: continue          # the slice's own default applies
+        kw.append(ast.keyword(arg=p, value=_Rewrite().visit(copy.deepcopy(bound[p]))))
+    need = set()
+    for k in kw: need |= reads(k.value)
+    need.discard(opaque)
+    changed = True
+    while changed:                      # variables the names depend on
+        changed = False
+        for s in _stmts(body):
+            if isinstance(s, ast.Assign) and len(s.targets) == 1 and isinstance(s.targets[0], ast.Name) and s.targets[0].id in need:
+                new = reads(_Rewrite().visit(copy.deepcopy(s.value))) - need - {opaque, 'names_'}
+                if new: need |= new; changed = True
+            if _is_self_call(s, 'rename_layer'):
+                for a in s.value.args:
+                    new = reads(_Rewrite().visit(copy.deepcopy(a))) - need - {opaque, 'names_'}
+                    if new: need |= new; changed = True
+            if isinstance(s, ast.If) and any(_is_self_call(t, 'rename_layer') or _is_self_call(t, 'add_layers') or _is_self_call(t, 'clear_layers') for t in _stmts(s.body + s.orelse)):
+                new = reads(_Rewrite().visit(copy.deepcopy(s.test))) - need - {opaque, 'names_'}
+                if new: need |= new; changed = True
+
+    def names(x): return ast.Name(id='names_', ctx=x)
+
+    def conv(stmts):
+        out = []
+        for s in stmts:
+            if isinstance(s, ast.Expr):
+                if isinstance(s.value, ast.Constant): continue
+                if _is_self_call(s, 'clear_layers') and not s.value.args and not s.value.keywords:
+                    out.append(ast.Assign(targets=[names(ast.Store())], value=ast.List(elts=[], ctx=ast.Load()), lineno=s.lineno))
+                elif _is_self_call(s, 'add_layers'):
+                    out.append(ast.Assign(targets=[names(ast.Store())], lineno=s.lineno,
+                                          value=ast.Call(func=ast.Attribute(value=ast.Name(id='self', ctx=ast.Load()), attr='add_layers', ctx=ast.Load()), args=[], keywords=kw)))
+                elif _is_self_call(s, 'rename_layer'):
+                    if s.value.keywords or len(s.value.args) != 2: bad(s, 'rename_layer call form')
+                    old, new = [_Rewrite().visit(copy.deepcopy(a)) for a in s.value.args]
+                    out.append(ast.Assign(targets=[ast.Name(id='old_', ctx=ast.Store())], value=old, lineno=s.lineno))
+                    out.append(ast.Assign(targets=[ast.Name(id='new_', ctx=ast.Store())], value=new, lineno=s.lineno))
+                    elt = ast.IfExp(test=ast.Compare(left=ast.Name(id='n_', ctx=ast.Load()), ops=[ast.Eq()], comparators=[ast.Name(id='old_', ctx=ast.Load())]),
+                                    body=ast.Name(id='new_', ctx=ast.Load()), orelse=ast.Name(id='n_', ctx=ast.Load()))
+                    out.append(ast.Assign(targets=[names(ast.Store())], lineno=s.lineno,
+                                          value=ast.ListComp(elt=elt, generators=[ast.comprehension(target=ast.Name(id='n_', ctx=ast.Store()), iter=names(ast.Load()), ifs=[], is_async=0)])))
+                elif any(_is_self_call(s, h) for h in HARMLESS_CALLS): continue
+                elif isinstance(s.value, ast.Call) and isinstance(s.value.func, ast.Attribute) and isinstance(s.value.func.value, ast.Name) \
+                        and s.value.func.value.id not in need | {'self', 'names_'}: continue      # e.g. thicknesses.append(..)
+                else: bad(s, 'unrecognised call statement')
+            elif isinstance(s, (ast.Assign, ast.AugAssign)):
+                tg = s.targets[0] if isinstance(s, ast.Assign) and len(s.targets) == 1 else getattr(s, 'target', None)
+                if not isinstance(tg, ast.Name): bad(s, 'assignment target')
+                if tg.id in need:
+                    t = copy.deepcopy(s); t.value = _Rewrite().visit(t.value); out.append(t)
+                # anything else (thicknesses, factor, layers, elevations) does not reach a name
+            elif isinstance(s, ast.If):
+                b, o = conv(s.body), conv(s.orelse)
+                if b or o:
+                    t = copy.copy(s); t.test = _Rewrite().visit(copy.deepcopy(s.test)); t.body = b or [ast.Pass()]; t.orelse = o
+                    out.append(t)
+            elif isinstance(s, ast.For):
+                if conv(s.body) or conv(s.orelse): bad(s, 'layer names changed inside a for loop')
+            else: bad(s, 'statement %s' % type(s).__name__)
+        return out
+    new = conv(body)
+    new.append(ast.Return(value=names(ast.Load())))
+    fn.body = new
+    used = set()
+    for s in new: used |= reads(s)
+    if 'names_' in [a.arg for a in fn.args.args]: raise Refusal('refine_layers: names_ in use')
+    fn.args.defaults = []
+    fn.args.args = [a for a in fn.args.args] + [ast.arg(arg=opaque)] if opaque not in [a.arg for a in fn.args.args] else fn.args.args
+    params = _params_of(fn, (used | {opaque}) - {'names_'}, extra_first=['names_'])
+    ast.fix_missing_locations(fn)
+    return fn, params
